@@ -69,10 +69,11 @@ impl<S: Read + Write> Stream<S> {
     /// }
     /// ```
     pub fn write(&mut self, buffer: &[u8]) -> RdpResult<usize> {
-        Ok(match self {
-            Stream::Raw(e) => e.write(buffer)?,
-            Stream::Ssl(e) => e.write(buffer)?
-        })
+        match self {
+            Stream::Raw(e) => e.write_all(buffer)?,
+            Stream::Ssl(e) => e.write_all(buffer)?
+        };
+        Ok(buffer.len())
     }
 
     /// Shutdown the stream
